@@ -159,6 +159,12 @@ func run(s *scenario) {
 	}
 	for _, st := range s.Steps {
 		switch st.A {
+		case "plant":
+			// a long-running bridge: its eldest filter entry is N seconds short of the TTL
+			ok := obfs4.VerifPlantReplay(b.SF, time.Duration(obfs4.VerifReplayTTLSeconds()-st.N)*time.Second)
+			w.Emit(vt.Ev{"event": "Plant", "ok": ok, "short_s": st.N})
+		case "sleep":
+			time.Sleep(time.Duration(st.N) * time.Millisecond)
 		case "new":
 			hs[st.H] = mk(st.H, st.Off)
 		case "submit":
